@@ -72,7 +72,18 @@ impl Wire {
                 Ok(Err(_)) => "othererr",
                 Err(_) => "panic",
             };
-            self.events.borrow_mut().push(json!({"e": "bridge", "line": j::bytes(&line), "res": res,
+            // what the library's own decoder / mapping say of the line, and the bus reply's own wire form
+            let direct = catch(|| Frame::from_bytes(&line).map(|f| j::msg(&Message::from(f))));
+            let (decodable, direct_msg) = match direct {
+                Ok(Ok(m)) => (true, m),
+                _ => (false, j::reply(&None)),
+            };
+            let reply_wire: Vec<u8> = match fw.first() {
+                Some((_, r)) if r["k"] != "None" => catch(|| Frame::from(j::msg_from(r)).to_bytes_with_newline()).unwrap_or_default(),
+                _ => vec![],
+            };
+            self.events.borrow_mut().push(json!({"e": "bridge", "line": j::bytes(&line), "res": res, "decodable": decodable, "direct_msg": direct_msg,
+                "reply_wire": j::bytes(&reply_wire),
                 "forwarded": fw.iter().map(|x| x.0.clone()).collect::<Vec<_>>(), "replies": fw.iter().map(|x| x.1.clone()).collect::<Vec<_>>(),
                 "wrote": j::bytes(&wrote), "bus_unchanged": bus_obs(&self.vbus.borrow(), self.n) == obs0}));
             self.ctl.borrow_mut().rx.extend(wrote);
